@@ -389,7 +389,7 @@ class C15Property:
                "gc timing: automatic collection disabled, gc.collect() is a scheduled event"]
     assumptions = ["true parallelism inside tree-sitter's C code is outside the simulator", "sampling, not enumeration"]
 
-    def __init__(self, quick_runs=3000, thorough_runs=60000):
+    def __init__(self, quick_runs=4000, thorough_runs=60000):
         self.pid = "C15"
         self.runs = {"quick": quick_runs, "thorough": thorough_runs}
 
